@@ -225,6 +225,35 @@ def run_rubik(shard, rep: Report) -> None:
                         if not np.array_equal(c.reshape(6, n, n), solved):
                             rep.count("rotated_goals_other_orientation")
                         break
+    # the solved test behind termination must look at the cube, whatever reward function is plugged in (documented option
+    # `reward_fn`): with a dense "fraction of stickers in place" reward and with a move-penalty reward, a quarter turn away from
+    # the goal and back must give MID (unsolved) then LAST (solved) - never LAST on an unsolved cube
+    from jumanji.environments.logic.rubiks_cube import reward as rrew
+
+    class FractionInPlace(rrew.RewardFn):
+        def __call__(self, state):
+            goal = ru.make_solved_cube(n)
+            return jnp.mean((state.cube == goal).astype(jnp.float32))
+
+    class MovePenalty(rrew.RewardFn):
+        def __call__(self, state):
+            return jnp.where(ru.is_solved(state.cube), 0.0, -1.0)
+
+    for RF in (FractionInPlace, MovePenalty):
+        envc = RubiksCube(generator=ScramblingGenerator(cube_size=n, num_scrambles_on_reset=0), time_limit=50, reward_fn=RF())
+        stepc = jax.jit(envc.step)
+        stc, _ = jax.jit(envc.reset)(jax.random.PRNGKey(1))
+        for f in (U, F, R):
+            for mv in ((f, 0, 0), (f, 0, 1)):  # clockwise, then anticlockwise: back at the goal
+                stc2, tsc = stepc(stc, jnp.asarray(mv, jnp.int32))
+                cube = np.asarray(stc2.cube).reshape(6, -1)
+                uniform = bool((cube.max(1) == cube.min(1)).all())
+                rep.evaluated(1)
+                rep.count("custom_reward_fn_cube_steps")
+                if (int(np.asarray(tsc.step_type)) == 2) != uniform:
+                    viol("termination_iff_cube_solved", {"reward_fn": RF.__name__, "move": list(mv), "faces_uniform": uniform, "step_type": int(np.asarray(tsc.step_type))}, qualifier="custom_reward_fn")
+                # continue from the successor unless the episode was (rightly) ended by solving the cube
+                stc = stc2 if not uniform else jax.jit(envc.reset)(jax.random.PRNGKey(2))[0]
     # env.step on real colours, generator replay, solving by the inverse word
     scr = 5 if n <= 3 else 3
     for (scrambles, tl) in ((scr, 30), (0, 3), (100, 200)):
